@@ -14,7 +14,7 @@ CHECKS = {
    ref="DESIGN.md §3 C01"),
  "C02": dict(
    technique="explicit-state model checking (stateright) of the real Viterbi search: exhaustive bounded enumeration of texts x cost worlds, reference = brute-force enumeration of all lattice paths plus independent DP over the observed lattice",
-   text="For every text over a 3-symbol alphabet up to the bound, in every cost world (baseline plus deviations to the i16 limits, ties, negative costs, layered user dictionaries, three OOV provider types), the lattice of the real tokenizer is read through the verif hook; every node sequence tiling the text is enumerated and the returned path must be a lattice path, reproduce total_cost() from word parameters and matrix, and reach the minimum; the dictionary node set is cross-checked against a naive CSV scan, on a reused tokenizer.",
+   text="For every text over a 3-symbol alphabet (4 in the world of Latin words) up to the bound, in every cost world (baseline plus deviations to the i16 limits, ties, negative costs, layered user dictionaries, three OOV provider types), the lattice of the real tokenizer is read through the verif hook; every node sequence tiling the text is enumerated and the returned path must be a lattice path, reproduce total_cost() from word parameters and matrix, and reach the minimum; the dictionary node set is cross-checked against a naive CSV scan, on a reused tokenizer.",
    ref="DESIGN.md §3 C02"),
  "C03": dict(
    technique="explicit-state model checking (stateright): exhaustive enumeration of all Unicode scalars in contexts, bounded strings and generated length-boundary families on the real tokenizer built with debug assertions and overflow checks",
@@ -26,11 +26,11 @@ CHECKS = {
    ref="DESIGN.md §3 C09"),
  "C10": dict(
    technique="explicit-state model checking (stateright BFS, no de-duplication) over operation histories on one real tokenizer and reused result lists, differential against fresh objects",
-   text="Every sequence of up to `depth` operations out of 19 (set_mode, set_subset, analyse+collect of long/short/empty/over-long/normalisation-overflow/numeral/split texts, analyse without collect, collect alone, on-demand split into a reused list, lookup on the reused list, clear) is applied to one StatefulTokenizer and reused MorphemeLists; afterwards three probes analysed on the used objects must equal a fresh tokenizer with the same mode and field request in boundaries, word identities and every requested field; a failed analysis must leave the tokenizer usable.",
+   text="Every sequence of up to `depth` operations out of 23 (set_mode, set_subset, analyse+collect of long/short/empty/over-long/normalisation-overflow/numeral/split texts, analyse without collect, collect alone, on-demand split into a reused list, lookup on the reused list, clear) is applied to one StatefulTokenizer and reused MorphemeLists; afterwards three probes analysed on the used objects must equal a fresh tokenizer with the same mode and field request in boundaries, word identities and every requested field; a failed analysis must leave the tokenizer usable.",
    ref="DESIGN.md §3 C10"),
  "C11": dict(
    technique="explicit-state model checking (stateright): all 1024 field subsets x every word, and x every bounded text x modes x call orders, on the real lexicon reader and tokenizer, differential against the all-fields result",
-   text="Every word of a two-user-dictionary world x all 1024 subsets through LexiconSet::get_word_info_subset and through a tokenizer after set_subset: every requested field read through its public accessor equals the all-fields value (strings across the one/two-byte length prefix included). Every text within the bound x all 1024 subsets x modes A/B/C x both orders of set_mode/set_subset: surfaces partition the input; tokens equal the full analysis when no path-rewrite plugin is configured or the subset covers surface, POS and normalised form.",
+   text="Every word of a two-user-dictionary world x all 1024 subsets through LexiconSet::get_word_info_subset and through a tokenizer after set_subset: every requested field read through its public accessor equals the all-fields value (strings across the one/two-byte length prefix included). Every text within the bound x all 1024 subsets x modes A/B/C x four call orders of set_mode / set_subset / reused result list: surfaces partition the input; tokens equal the full analysis when no path-rewrite plugin is configured or the subset covers surface, POS and normalised form.",
    ref="DESIGN.md §3 C11"),
  "C12": dict(
    technique="explicit-state model checking (stateright BFS) over configuration decisions (plugin POS registrations x build route x one POS pattern per user dictionary, all orders), every state built with the real compiler/loader and compared with the declared CSV content",
@@ -67,7 +67,7 @@ CHECKS = {
  "C06": dict(
    level="fault_enumeration", engine="E1-stateright+E3-sink-faults",
    technique="fault enumeration: every failure offset (error and Ok(0), whole and single-byte writes) of the compiler's output sink; plus explicit-state enumeration (stateright) of byte strings, hostile field deviations, matrix texts and builder call orders with an independent validator of every accepted output",
-   text="For the baseline system and user dictionaries a failing sink is injected at every byte offset (returning an error, returning Ok(0), accepting whole writes or one byte per call): compile must never report success, and short writes must not change the output. The input half enumerates every byte string up to the bound (all 256 byte values; a CSV-relevant alphabet) as system lexicon, user lexicon and matrix, a valid row with every single/pair of hostile field values and arities, 41 matrix texts and every builder call order up to length 4: no panic, and whenever success is reported an independent validator loads the dictionary, checks every indexed entry's ids against the matrix as the lookup formula indexes it, every reference, and analyses probe texts.",
+   text="For the baseline system and user dictionaries a failing sink is injected at every byte offset (returning an error, returning Ok(0), accepting whole writes or one byte per call): compile must never report success, and short writes must not change the output. The input half enumerates every byte string up to the bound (all 256 byte values; a CSV-relevant alphabet) as system lexicon, user lexicon and matrix, a valid row with every single/pair of hostile field values and arities, 41 matrix texts and every builder call order up to length 5 (thorough 6): no panic, and whenever success is reported an independent validator loads the dictionary, checks every indexed entry's ids against the matrix as the lookup formula indexes it, every reference, and analyses probe texts.",
    ref="DESIGN.md §3 C06"),
  "C07": dict(
    technique="explicit-state model checking (stateright): all 1,112,064 scalars in context and all bounded strings through the real input-text plugins, compared state by state with a reference normaliser",
@@ -80,13 +80,13 @@ CHECKS = {
  "C18": dict(
    engine="E2-schedules",
    technique="stateless model checking of the real code under a controlled cooperative scheduler (CHESS-style iterative preemption bounding over sched_point hooks; real OS threads, every hand-off owned by the explorer)",
-   text="Every interleaving at hook granularity of 2 threads x 2 analyses, 3 threads x 1 analysis (one of them sentence splitting) and 2 threads x 1 short analysis over one shared Arc<JapaneseDictionary> (all three OOV provider types, both path-rewrite plugins, input plugins, two user dictionaries) with at most 0, 1, 2 preemptions is executed on the real code: each thread's morphemes must equal its single-threaded result, the dictionary fingerprint must not change, no thread may panic or block outside the scheduler; the first schedules are replayed twice to show the harness owns the nondeterminism. Send+Sync of the dictionary is asserted at compile time.",
+   text="Every interleaving at hook granularity of the drivers listed in the evidence (2 threads x 2 analyses, 3 threads x 1 analysis with sentence splitting, katakana runs, bracketed readings, first use of a dictionary, different field requests, characters with equal low 16 bits, a 1300-word dictionary) over one shared Arc<JapaneseDictionary> that is newly loaded for every execution (all three OOV provider types, both path-rewrite plugins, input plugins, two user dictionaries) with at most 0, 1, 2 preemptions is executed on the real code: each thread's morphemes must equal its single-threaded result, the dictionary fingerprint must not change, no thread may panic or block outside the scheduler; the first schedules are replayed twice to show the harness owns the nondeterminism. Send+Sync of the dictionary is asserted at compile time.",
    note="Scheduling points exist only at the hook sites; races inside one section between two hooks, memory-ordering effects and the internals of regex / lazy_static / std::sync::Once are not explored. The Python half rests on the shared core plus PyO3's exclusive borrow while the GIL is released; C19's driver adds a sampled (non-deciding) Python thread run. " + TRUSTED,
    ref="DESIGN.md §3 C18"),
  "C19": dict(
    engine="E4-external",
    technique="bounded-exhaustive enumeration of command-line inputs and Python API call sequences run through the real binary / extension out of process, differential against the in-process library (explicit enumeration of operation sequences up to a depth)",
-   text="CLI: every file of at most 2 (thorough 3) lines over seven line bodies x LF / CRLF / missing final terminator x seven flag sets is fed to the real `sudachi` binary built from /repo; stdout must equal byte for byte what the library and the documented column / wakati format give for each line without its terminator. Python: every call sequence up to depth 2 (thorough 3) over 29 operations (tokenize with and without per-call mode and out=, a failing call with per-call mode, Morpheme.split with and without out=, lookup with and without out=, holding a morpheme across list reuse) for four tokenizer configurations on the real extension: results equal the library's, text[begin:end] is the raw surface, per-call modes do not stick, the interpreter finishes.",
+   text="CLI: every file of at most 2 (thorough 3) lines over seven line bodies x LF / CRLF / missing final terminator / lone CR x nine flag sets and I/O routes (file, stdin, -o), one line beyond 65535 bytes, and a 600-word dictionary with 600 parts of speech is fed to the real `sudachi` binary built from /repo; stdout must equal byte for byte what the library and the documented column / wakati format give for each line without its terminator. Python: every call sequence up to depth 2 (thorough 3) over 31 operations (tokenize with and without per-call mode and out=, a failing call with per-call mode, Morpheme.split with and without out=, lookup with and without out=, holding a morpheme across list reuse) for five tokenizer configurations on the real extension: results equal the library's, text[begin:end] is the raw surface, per-call modes do not stick, the interpreter finishes.",
    note="Subjects run out of process (E4); the pre_tokenizer path needs the `tokenizers` package, which is not installed, and is not exercised; the Python thread run is a sample. " + TRUSTED,
    ref="DESIGN.md §3 C19"),
  "C20": dict(
